@@ -10,6 +10,7 @@ NODE = "swcgeom/core/node.py"
 TREE = "swcgeom/core/tree.py"
 PATH = "swcgeom/core/path.py"
 BRANCH = "swcgeom/core/branch.py"
+COMP = "swcgeom/core/compartment.py"
 SWC = "swcgeom/core/swc.py"
 KEYS = list(COLS)
 OPTS = dict(models=X.MODELS)
@@ -198,6 +199,7 @@ def register(R: Registry):
 
     register_path(R, path_obj)
     register_handles(R, path_obj)
+    register_branch(R, path_obj)
 
 
 
@@ -638,3 +640,124 @@ def register_handles(R, path_obj):
     R.add(f"{NODE}:Node.keys", prop="C09",
           variants={"tree-node": lambda S: dict(self=tnode(S)), "path-node": lambda S: dict(self=pnode_x(S))},
           ensures=[("exactly-the-owner's-column-names-in-the-owner's-order", nkeys_post)])
+
+
+# =====================================================================================================================
+# Branch / Compartment / Compartments
+def register_branch(R, path_obj):
+    from swcgeom.core.branch import Branch
+    from swcgeom.core.compartment import Compartment, Compartments
+    from swcgeom.core.swc import DictSWC
+    from swcgeom.core.tree import Tree
+
+    def sym_branch(S, extra=False):
+        return path_obj(S, sym_tree(S, "t", frozen=True, extra_cols=(("level",) if extra else ())), cls=Tree.Branch)
+
+    def idx_in_tree(E, v, o):
+        p = v["self"]
+        idx, t = pidx(p), p.fields["attach"]
+        if isinstance(idx, NArr):
+            return z3.And(*[z3.And(to_z3(x, "int") >= 0, to_z3(x, "int") < nof(t)) for x in idx.items])
+        j = qj()
+        return z3.ForAll([j], z3.Implies(z3.And(j >= 0, j < idx.nz()), z3.And(idx.get(j).z >= 0, idx.get(j).z < nof(t))))
+
+    PRE = [("window-positions-are-rows-of-the-owner", idx_in_tree)]
+
+    def gathers(E, v, o):
+        p = v["self"]
+        c = col(p.fields["attach"], v["key"])
+        idx, r = pidx(p), v["result"]
+        j = qj()
+        return z3.And(r.nz() == idx.nz(), r.uid not in E.entry_uids,
+                      z3.ForAll([j], z3.Implies(z3.And(j >= 0, j < idx.nz()), r.get(j).z == z3.Select(c.arr, idx.get(j).z))))
+
+    R.add(f"{BRANCH}:Branch.get_ndata", prop="C09",
+          variants={k: (lambda S, _k=k: dict(self=sym_branch(S), key=_k)) for k in KEYS}, requires=PRE,
+          ensures=[("fresh-gather-of-the-owner-column-in-order", gathers)])
+
+    def keys_post(E, v, o):
+        r, t = v["result"], v["self"].fields["attach"]
+        return isinstance(r, PList) and r.items == list(t.fields["ndata"].items.keys())
+
+    R.add(f"{BRANCH}:Branch.keys", prop="C09", setup=lambda S: dict(self=sym_branch(S, extra=True)),
+          ensures=[("exactly-the-owner's-column-names-in-the-owner's-order", keys_post)])
+
+    R.add(f"{BRANCH}:Branch.detach", prop="C09", setup=lambda S: dict(self=sym_branch(S, extra=True)), requires=PRE,
+          ensures=detach_clauses(Branch, window_len=lambda p: pidx(p).nz(), window_pos=lambda p, j: pidx(p).get(j).z), options=dict(OPTS))
+
+    # ------------------------------------------------------------------ Branch.get_compartments / get_segments, any length
+    def pairs_post(E, v, o):
+        br, res = v["self"], v["result"]
+        h = X._handles_of(res)
+        if not (isinstance(res, Obj) and res.cls is Compartments) or h is None or h.cls_ is not Branch.Compartment or h.fixed.get("attach") is not br:
+            return False
+        if "idx" not in h.vecs or h.vecs["idx"][0] != (2,):
+            return False
+        n, k = pidx(br).nz(), qj("k")
+        cnt = z3.If(n >= 1, n - 1, z3.IntVal(0))
+        # compartment k reports, for every key, branch.get_ndata(key)[[k, k+1]]: its window onto the branch is (k, k+1)
+        return z3.And(zint(h.n) == cnt, z3.ForAll([k], z3.Implies(z3.And(k >= 0, k < cnt), z3.And(z3.Select(h.vec("idx", 0), k) == k, z3.Select(h.vec("idx", 1), k) == k + 1))))
+
+    for fn in ("get_compartments", "get_segments"):
+        R.add(f"{BRANCH}:Branch.{fn}", prop="C09", setup=lambda S: dict(self=sym_branch(S)), requires=PRE,
+              ensures=[("segments-are-the-consecutive-node-pairs-in-order", pairs_post)], options=dict(OPTS))
+
+    # ------------------------------------------------------------------ Compartment
+    def comp_init_post(E, v, o):
+        c, a = v["self"], v["attach"]
+        i = c.fields.get("idx")
+        if c.fields.get("attach") is not a or c.fields.get("names") is not a.fields["names"] or c.fields.get("source") != a.fields["source"]:
+            return False
+        if not (isinstance(i, NArr) and i.shape == (2,) and i.kind == "int" and i.uid not in E.entry_uids and i.view_of is None):
+            return False
+        return z3.And(to_z3(i.items[0], "int") == to_z3(o["pid"], "int"), to_z3(i.items[1], "int") == to_z3(o["idx"], "int"))
+
+    R.add(f"{COMP}:Compartment.__init__", prop="C09",
+          variants={"on-a-tree": lambda S: dict(self=S.obj(Tree.Compartment), attach=sym_tree(S, "t"), pid=S.int("p"), idx=S.int("c")),
+                    "on-a-branch": lambda S: dict(self=S.obj(Branch.Compartment), attach=sym_branch(S), pid=S.int("p"), idx=S.int("c"))},
+          ensures=[("two-position-window-(parent,child)-on-the-given-owner", comp_init_post)])
+
+    def sym_comp(S, extra=False, cls=None):
+        return path_obj(S, sym_tree(S, "t", frozen=True, extra_cols=(("level",) if extra else ())), cls=cls or Tree.Compartment, L=2)
+
+    def comp_gathers(E, v, o):
+        c, r = v["self"], v["result"]
+        cl = col(c.fields["attach"], v["key"])
+        if not (isinstance(r, NArr) and r.shape == (2,) and r.uid not in E.entry_uids and r.view_of is None):
+            return False
+        return z3.And(*[to_z3(x, cl.kind) == z3.Select(cl.arr, to_z3(p, "int")) for x, p in zip(r.items, pidx(c).items)])
+
+    R.add(f"{COMP}:Compartment.get_ndata", prop="C09",
+          variants={k: (lambda S, _k=k: dict(self=sym_comp(S), key=_k)) for k in KEYS}, requires=PRE,
+          ensures=[("fresh-pair-(parent-value,child-value)-of-the-owner-column", comp_gathers)])
+
+    R.add(f"{COMP}:Compartment.keys", prop="C09", setup=lambda S: dict(self=sym_comp(S, extra=True)),
+          ensures=[("exactly-the-owner's-column-names-in-the-owner's-order", keys_post)])
+
+    def comp_detach_shape(E, v, o):
+        r, c = v["result"], v["self"]
+        if not (isinstance(r, Obj) and r.cls is Compartment and r is not c and isinstance(r.fields.get("attach"), Obj) and r.fields["attach"].cls is DictSWC):
+            return False
+        a, i = r.fields["attach"], r.fields.get("idx")
+        return (a.uid not in E.entry_uids and r.fields.get("names") is c.fields["names"] and a.fields.get("names") is c.fields["names"]
+                and a.fields.get("source") == c.fields["attach"].fields["source"] and list(a.fields["ndata"].items) == list(c.fields["attach"].fields["ndata"].items)
+                and isinstance(i, NArr) and i.shape == (2,) and [x for x in i.items] == [0, 1])
+
+    def comp_detach_content(E, v, o):
+        r, c = v["result"], o["self"]
+        t = c.fields["attach"]
+        out = []
+        for k, a in r.fields["attach"].fields["ndata"].items.items():
+            if not (isinstance(a, NArr) and a.shape == (2,)):
+                return False
+            for pos in (0, 1):
+                want = z3.IntVal(pos) if k == "id" else (z3.IntVal(pos - 1) if k == "pid" else z3.Select(col(t, k).arr, to_z3(pidx(c).items[pos], "int")))
+                out.append(to_z3(a.items[pos], a.kind) == want)
+        return z3.And(*out)
+
+    R.add(f"{COMP}:Compartment.detach", prop="C09", setup=lambda S: dict(self=sym_comp(S, extra=True)), requires=PRE,
+          ensures=[("a-plain-Compartment-(0,1)-on-a-private-two-row-DictSWC-with-the-owner's-columns", comp_detach_shape),
+                   ("every-column-holds-(parent-value,child-value)-ids-renumbered", comp_detach_content),
+                   ("fresh-storage-nothing-shared-with-the-original-or-between-columns", lambda E, v, o: fresh_and_separate(E, owned_arrays(v["result"]))),
+                   ("original-owner-untouched", lambda E, v, o: unchanged(E, v["self"].fields["attach"], o["self"].fields["attach"]))],
+          options=dict(OPTS))
